@@ -14,7 +14,7 @@ CURIE_PREFIXES = [
     "a", "A", "b", "B", "ab", "Ab", "aB", "go", "GO", "Go", "x1", "X1",
     "é", "É", "p.q", "n-1", "x_1", "c", "d", "e",
 ]
-RARE_CURIE_PREFIXES = ["", "a:b", "u", "h"]
+RARE_CURIE_PREFIXES = ["", "a:b", "u", "h", "a+b", "c(1)", "x?", "p[0]", "m%s", "q{0}"]
 
 # URI prefixes: a prefix-closed lattice over a tiny alphabet, so nesting,
 # one-character differences and synonyms nested in other records' prefixes are
@@ -27,6 +27,9 @@ URI_PREFIXES = [
     "a:", "go:", "GO:", "w|", "w|q::",
     # realistically long ones (longer than any plausible fixed-width head / bucket)
     "http:", "http://x.org/", "http://x.org/a", "http://x.org/a/b_", "http://y.org/", "https://x.org/",
+    # names that are hostile to anything that treats a registered name as a pattern or a template
+    "http://x.org/q?id=", "http://x.org/a+b/", "u:(x)/", "u:[a]", "u:$", "u:^a", "u:\\", "u:%20", "u:{0}",
+    "u:a*", "u:.",
 ]
 RARE_URI_PREFIXES = ["", "u"]
 
